@@ -84,7 +84,8 @@ def exec_prog(exe, path, timeout=3600, extra=(), wrapper=None):
         except OSError:
             wrapper = []
     try:
-        p = subprocess.run(list(wrapper) + [exe, "exec", path] + list(extra), stdout=subprocess.PIPE, stderr=subprocess.STDOUT, text=True, timeout=timeout)
+        env = dict(os.environ, M4SIM_SLOW_FACTOR="40") if wrapper else None   # an instrumenting runner: the child's CPU-time limit scales with it
+        p = subprocess.run(list(wrapper) + [exe, "exec", path] + list(extra), stdout=subprocess.PIPE, stderr=subprocess.STDOUT, text=True, timeout=timeout, env=env)
     except subprocess.TimeoutExpired:
         return dict(cls="TIMEOUT", raw="timeout")
     xs = [l for l in p.stdout.split("\n") if l.startswith("X ")]
@@ -115,10 +116,15 @@ def same_violation(a, b, sym):
     return True
 
 
-def ddmin_lines(lines, keep_pred, test):
+SHRINK_SECONDS = float(os.environ.get("M4SIM_SHRINK_SECONDS", "90"))  # wall-clock budget per violation signature; the best program found so far is kept
+
+
+def ddmin_lines(lines, keep_pred, test, deadline=None):
     """Greedy line removal (ddmin flavour: chunks halving down to single lines).
     keep_pred(line) -> True if the line may never be removed. test(lines)->bool."""
     n_tests = 0
+    if deadline is None:
+        deadline = time.time() + SHRINK_SECONDS
     cur = list(lines)
     chunk = max(1, len(cur) // 2)
     while chunk >= 1:
@@ -136,7 +142,7 @@ def ddmin_lines(lines, keep_pred, test):
                 progress = True
             else:
                 i += chunk
-            if n_tests > 400:
+            if n_tests > 400 or time.time() > deadline:
                 return cur, n_tests
         if chunk == 1 and not progress:
             break
@@ -147,7 +153,7 @@ def ddmin_lines(lines, keep_pred, test):
 DIM_LINE = re.compile(r"^(mat|perm)\s")
 
 
-def shrink_dims(lines, test, budget=120):
+def shrink_dims(lines, test, budget=120, deadline=None):
     """Replace every occurrence of a dimension value (in mat/perm lines) by a smaller one, keeping equal
     dimensions equal, while the violation persists."""
     n_tests = 0
@@ -179,7 +185,9 @@ def shrink_dims(lines, test, budget=120):
 
     cur = list(lines)
     changed = True
-    while changed and n_tests < budget:
+    if deadline is None:
+        deadline = time.time() + SHRINK_SECONDS
+    while changed and n_tests < budget and time.time() < deadline:
         changed = False
         for v in dims_of(cur):
             for new in sorted(set([1, 2, v // 2, 64 if v > 64 else 1, 65 if v > 65 else 1, v - 1])):
@@ -191,9 +199,9 @@ def shrink_dims(lines, test, budget=120):
                     cur = cand
                     changed = True
                     break
-                if n_tests >= budget:
+                if n_tests >= budget or time.time() > deadline:
                     break
-            if changed or n_tests >= budget:
+            if changed or n_tests >= budget or time.time() > deadline:
                 break
     return cur, n_tests
 
@@ -271,8 +279,9 @@ def process_violations(rep, exe, vlines, sym, outdir, seed, make_signature, keep
                 return same_violation(base, r, sym)
 
             kp = keep_pred or (lambda l: l.startswith("#") or l.startswith("lib "))
-            lines, t1 = ddmin_lines(lines, kp, test)
-            lines, t2 = shrink_dims(lines, test)
+            dl = time.time() + SHRINK_SECONDS
+            lines, t1 = ddmin_lines(lines, kp, test, deadline=dl)
+            lines, t2 = shrink_dims(lines, test, deadline=dl)
             tests = t1 + t2
         safe = re.sub(r"[^A-Za-z0-9_.-]+", "_", sig)[:80]
         replay = os.path.join(VERIF, "replays", "%s-%s-%s%s.replay" % (prop, seed, safe, tag))
